@@ -53,9 +53,40 @@ def first_diff(a, b, path="/"):
     return None
 
 
-def compare(text):
+def parse_via_file(text):
+    """Outcome of Parser.parse_file on a temporary file holding text."""
+    import os
+    work = os.path.join(core.ROOT, ".work")
+    os.makedirs(work, exist_ok=True)
+    path = os.path.join(work, "c03-%d.sieve" % os.getpid())
+    with open(path, "wb") as fp:
+        fp.write(text)
+    o = impl.Outcome()
+    o.exc = o.exc_msg = o.error = o.error_pos = o.result = None
+    o.steps = -1
+    p = impl.Parser()
+    o.parser = p
+    try:
+        core.guard_enter(text)
+        with impl.cpu_guard():
+            o.verdict = p.parse_file(path)
+    except Exception as e:  # noqa: BLE001
+        o.verdict = None
+        o.exc = impl.exc_bucket(e)
+    finally:
+        core.guard_exit()
+        try:
+            os.unlink(path)
+        except OSError:
+            pass
+    if o.verdict is True:
+        o.result = getattr(p, "result", None)
+    return o
+
+
+def compare(text, via_file=False):
     """Returns (status, bucket, detail). status: 'skip' / 'ok' / 'fail'."""
-    o = impl.parse_outcome(text)
+    o = parse_via_file(text) if via_file else impl.parse_outcome(text)
     if o.verdict is not True or o.exc is not None:
         return "rejected", None, None, None
     r = analyze(text)
@@ -104,6 +135,14 @@ def _one(text, src, col):
     col.case(key=None if src in ("blind", "guided") else text, nontrivial=nt, classes=classes, sample=sample)
     if status == "fail":
         col.fail(bucket, {"text": text}, detail)
+    elif src in ("gen", "layout", "mutant") and (b"\r" in text or col.evals % 7 == 0):
+        # the same input given as a file must yield the same faithful tree
+        st2, b2, d2, _ = compare(text, via_file=True)
+        col.cls("via:parse_file")
+        if st2 == "fail":
+            col.fail("parse_file|" + b2, {"text": text, "file": True}, d2)
+        elif st2 == "rejected":
+            col.fail("parse_file|rejects-what-parse-accepts", {"text": text, "file": True}, {"text": text})
 
 
 def judge(text, meta, col):
@@ -115,11 +154,18 @@ def judge(text, meta, col):
 
 
 def replay(case):
+    if case.get("file"):
+        status, bucket, detail, _ = compare(case["text"], via_file=True)
+        if status == "rejected" and compare(case["text"])[0] != "rejected":
+            return [("parse_file|rejects-what-parse-accepts", {"text": case["text"]})]
+        return [("parse_file|" + bucket, detail)] if status == "fail" else []
     status, bucket, detail, _ = compare(case["text"])
     return [(bucket, detail)] if status == "fail" else []
 
 
 def shrink(case, bucket, budget):
+    if case.get("file"):
+        return None
     toks = [t.text + (b"\n" if t.kind == "mls" else b"") for t in lex(case["text"]).tokens]
 
     def still(ts):
@@ -132,7 +178,7 @@ def shrink(case, bucket, budget):
 
 def main(tier, seed, t0):
     col = pspace.run(MOD, tier, seed)
-    need = ["accepted", "has-block", "list-arg", "tag", "src:gen", "src:guided", "src:mutant", "src:layout"]
+    need = ["via:parse_file", "accepted", "has-block", "list-arg", "tag", "src:gen", "src:guided", "src:mutant", "src:layout"]
     missing = [c for c in need if not col.classes.get(c)]
     if missing:
         raise core.HarnessError("generator classes empty: %s" % missing)
